@@ -184,6 +184,15 @@ func c18CheckSession(a *ChildArgs, s *c18Session, phase string, mirror bool) *ls
 	a.Rec.Count("evaluations", 1)
 	a.Rec.Distinct("sessions", fmt.Sprintf("%x", hash64(in)))
 	res := lspRun(in)
+	a.Rec.Sample(phase, 2, map[string]interface{}{"steps": len(s.steps), "input_bytes": len(in), "frames_written": len(res.Frames), "returned": res.Returned, "first_steps": func() []string {
+		var l []string
+		for i, st := range s.steps {
+			if i < 6 {
+				l = append(l, st.Kind+":"+st.Label)
+			}
+		}
+		return l
+	}()})
 	labels := func() []string {
 		var l []string
 		for _, st := range s.steps {
